@@ -1193,8 +1193,130 @@ def other_emitters(run, repo):
               owner.module, fn, sample='SurfaceReaction(transition_state=[bep], direction=d) -> bep.<d>_reactions')
 
 
+def bep_caller_lists(run, repo):
+    """history over coexisting BEP relations: the member lists handed to the constructor are lists of the caller, who
+    keeps using them (the same two lists for a second relation, one list for both directions, an edit afterwards).
+    Reactions built later register themselves with their relation; with no read in between, every relation's YAML entry
+    and CTI directive then name exactly the reactions built with it (plus the members it was given), as for a relation
+    built with lists of its own, and the caller's lists hold what the caller put into them."""
+    bci = repo.cls('pmutt.omkm.reaction.BEP')
+    rci = repo.cls('pmutt.omkm.reaction.SurfaceReaction')
+    owner, fn = repo.find_method(bci, '__init__')
+    run.fn(owner.qual + '.__init__')
+
+    def ids_of(v):
+        return [pub_id(x) for x in v.items] if isinstance(v, ListV) else show(v, 60)
+
+    def pub_id(x):
+        try:
+            return get_public(I, x, 'id') if isinstance(x, Obj) and x.ci is not None else x.attrs.get('id')
+        except _RaisedExc:
+            return None
+
+    def written(bep, u):
+        """({'cleavage': ids, 'synthesis': ids} of the YAML entry, the same of the CTI directive)"""
+        d = I.call_method(bep, 'to_omkm_yaml', [], {'units': u})
+        y = {k_: named_ids(I, d.d.get(k_ + '-reactions')) for k_ in ('cleavage', 'synthesis')} \
+            if isinstance(d, DictV) else show(d, 80)
+        out = I.call_method(bep, 'to_cti', [], {'units': u})
+        if isinstance(out, Raised) or not isinstance(out, (str, SegStr)):
+            return y, show(out, 80)
+        lit = ''.join(s_.text if s_.kind == 'lit' else (str(I.plain(s_.value)) if s_.cls != 'num' else '\x01')
+                      for s_ in I.seg(out).segs)
+        i_c, i_s = lit.find('cleavage_reactions='), lit.find('synthesis_reactions=')
+        if 0 <= i_c < i_s:
+            clv, syn = lit[i_c:i_s], lit[i_s:]
+        elif 0 <= i_s < i_c:
+            syn, clv = lit[i_s:i_c], lit[i_c:]
+        else:
+            return y, 'no member slots in %r' % lit[:120]
+        # every id of the fixture is r_dddd; a range "r_m to r_n" names every id between its ends
+        def named(part):
+            body = part[part.find('=') + 1:]
+            ents = _re.findall(r'"([^"]*)"', body)
+            return named_ids(I, ListV(list(ents)))
+        return y, {'cleavage': named(clv), 'synthesis': named(syn)}
+
+    for variant in ('lists of its own', 'the same two lists for two relations', 'one list for both directions',
+                    'a list the caller edits afterwards'):
+        I = Interp(repo)
+        D = I.D
+        fr = Frame(I, repo.module('pmutt'), {}, None, None)
+        u = fr.apply(repo.cls('pmutt.omkm.units.Units'), [], {'energy': 'kJ', 'quantity': 'mol',
+                                                               'act_energy': 'kJ/mol'}, None)
+        mk_sp = lambda n_: Obj(n_, attrs={'name': n_, 'elements': DictV({'H': C(1)}), 'phase': 'S'})
+        A_, B_ = mk_sp('A(S)'), mk_sp('B(S)')
+        old = Obj('r_0009', attrs={'id': 'r_0009'})          # a member the caller names at construction
+        late = Obj('r_0011', attrs={'id': 'r_0011'})         # something the caller puts into HIS list later
+        if variant == 'lists of its own':
+            given = [(ListV([]), ListV([])), (ListV([]), ListV([]))]
+        elif variant == 'the same two lists for two relations':
+            syn_, clv_ = ListV([]), ListV([])
+            given = [(syn_, clv_), (syn_, clv_)]
+        elif variant == 'one list for both directions':
+            both = ListV([])
+            given = [(both, both), (ListV([]), ListV([]))]
+        else:
+            given = [(ListV([old]), ListV([])), (ListV([]), ListV([]))]
+        caller_before = [[list(s_.items), list(c_.items)] for s_, c_ in given]
+        beps = []
+        for k_, (s_, c_) in enumerate(given):
+            beps.append(I.construct(bci, [], {'name': 'bep%d' % (k_ + 1), 'slope': D.sym('bslope%d' % k_),
+                                              'intercept': D.sym('bicpt%d' % k_), 'direction': 'synthesis',
+                                              'descriptor': 'delta_H', 'synthesis_reactions': s_,
+                                              'cleavage_reactions': c_}, name='bep%d' % (k_ + 1)))
+        if not all(isinstance(b_, Obj) for b_ in beps):
+            run.fail('EFFECT.bep-members', 'omkm.BEP.__init__', 'member lists of the caller: ' + variant,
+                     'BEP(synthesis_reactions=<list>, cleavage_reactions=<list>) gives %s'
+                     % [show(b_, 60) for b_ in beps], owner.module, fn)
+            continue
+        if variant == 'a list the caller edits afterwards':
+            given[0][0].items.append(late)                    # the caller's statement: his_list.append(...)
+            caller_before[0][0].append(late)
+        # reactions built afterwards, no read in between
+        made = []
+        for rid, k_, direction in (('r_0001', 0, 'synthesis'), ('r_0002', 1, 'synthesis'), ('r_0003', 0, 'cleavage'),
+                                   ('r_0005', 1, 'synthesis')):
+            made.append(I.construct(rci, [], {
+                'reactants': ListV([A_]), 'reactants_stoich': ListV([C(1)]), 'products': ListV([B_]),
+                'products_stoich': ListV([C(1)]), 'id': rid, 'direction': direction,
+                'transition_state': ListV([beps[k_]]), 'transition_state_stoich': ListV([C(1)])}, name=rid))
+        if not all(isinstance(r_, Obj) for r_ in made):
+            run.fail('EFFECT.bep-members', 'omkm.BEP.__init__', 'member lists of the caller: ' + variant,
+                     'SurfaceReaction(transition_state=[bep]) gives %s' % [show(r_, 60) for r_ in made],
+                     owner.module, fn)
+            continue
+        want = [{'cleavage': {'r_0003'}, 'synthesis': {'r_0001'}}, {'cleavage': set(), 'synthesis': {'r_0002', 'r_0005'}}]
+        if variant == 'a list the caller edits afterwards':
+            want[0]['synthesis'] = {'r_0009', 'r_0001'}
+        got = [written(b_, u) for b_ in beps]
+        model = [{'cleavage': ids_of(get_public(I, b_, 'cleavage_reactions')),
+                  'synthesis': ids_of(get_public(I, b_, 'synthesis_reactions'))} for b_ in beps]
+        caller_after = [[list(s_.items), list(c_.items)] for s_, c_ in given]
+        ok_files = all(y_ == w_ and c_ == w_ for (y_, c_), w_ in zip(got, want))
+        # (a relation that is the only user of the lists it was given is written correctly whether it copies them or
+        # not: the control variant compares the files only)
+        ok_caller = variant == 'lists of its own' or \
+            all(len(a_) == len(b_) and all(x is y for x, y in zip(a_, b_))
+                for pa, pb in zip(caller_after, caller_before) for a_, b_ in zip(pa, pb))
+        run.check(ok_files and ok_caller, 'EFFECT.bep-members', 'omkm.BEP.__init__',
+                  'member lists of the caller: ' + variant,
+                  '[%s] bep1 and bep2 are built from lists the caller holds, then r_0001 (bep1, synthesis), r_0002 '
+                  '(bep2, synthesis), r_0003 (bep1, cleavage), r_0005 (bep2, synthesis) are built with them. The YAML '
+                  'entries / CTI directives name %s; expected %s (each relation exactly the reactions built with it and '
+                  'the members it was given). The relations report %s. The caller\'s lists hold %s afterwards; he put '
+                  '%s into them'
+                  % (variant, [{'yaml': y_, 'cti': c_} for y_, c_ in got], want, model,
+                     [[[getattr(x, 'name', x) for x in l_] for l_ in p_] for p_ in caller_after],
+                     [[[getattr(x, 'name', x) for x in l_] for l_ in p_] for p_ in caller_before]),
+                  owner.module, fn,
+                  sample='BEP(synthesis_reactions=l1, cleavage_reactions=l2) [%s]: entries name own members only, '
+                         'l1/l2 untouched' % variant)
+
+
 def emitters(run, repo):
     species_emitters(run, repo)
     phase_emitters(run, repo)
     reaction_emitters(run, repo)
     other_emitters(run, repo)
+    bep_caller_lists(run, repo)
